@@ -294,6 +294,10 @@ class BuiltinsMixin:
                 # is False for np.int64; teneva treats those as arrays
                 if v.note == 'npscalar':
                     return BOOL()
+        if v.k == 'int' and v.note == 'npint':
+            # np.int64 is an np.integer / np.generic, not a Python int
+            return BOOL(bool({'numpy.int32', 'numpy.int64', 'numpy.integer',
+                              'numpy.generic', 'numpy.number'} & set(names)))
         return BOOL(bool(mine & set(names)))
 
     def b_print(self, pos, kw, node, env):
